@@ -419,6 +419,16 @@ class WProc(ScriptedMixin, Process):
             if not ok:
                 continue
             vals = w['vals']
+            if w.get('echo'):
+                # hand back the very object the process was shown for that variable
+                src = states
+                for seg in w['echo']:
+                    src = src.get(seg) if isinstance(src, dict) else None
+                    if src is None:
+                        break
+                if src is not None:        # (an output-only port shows nothing)
+                    _set_in(up, path, src)
+                continue
             _set_in(up, path, decode_value(vals[k % len(vals)]))
         return up
 
